@@ -80,10 +80,16 @@ class SpecMon(Monitor):
         self.nconsumed = 0
         self.slotq = None
         self.last_end = None  # end of the most recently stored buffer slice (C04 ordering)
+        # C03 framing detector: ('start'|'line0'|'in'|'cr0'|'lost') + fired position
+        self.det = ("start",) if kind in ("request", "response") else (("line0",) if kind == "headers" else ("c0",))
+        self.det_at = None
+        self.dflt = None  # the default-options reference running alongside (configured roots only)
 
     def clone(self):
         c = SpecMon.__new__(SpecMon)
         c.__dict__.update(self.__dict__)
+        if self.dflt is not None:
+            c.dflt = self.dflt.clone()
         c.marks = dict(self.marks)
         c.exp = dict(self.exp)
         c.got = dict(self.got)
@@ -94,7 +100,7 @@ class SpecMon(Monitor):
     def key(self):
         return (self.q, tuple(sorted(self.marks.items())), tuple(sorted(self.exp.items())), tuple(sorted(self.got.items())), self.pend,
                 self.nstored, self.verdict, tuple(sorted(self.vals.items())), tuple(sorted(self.flags.items())), self.phase, min(self.nconsumed, 1),
-                self.last_end)
+                self.last_end, self.det, self.det_at, self.dflt.q[0] == "ERR" if self.dflt is not None else None)
 
     # ---- plumbing ---------------------------------------------------------------------------
     def map_values(self, fv, floc):
@@ -105,6 +111,8 @@ class SpecMon(Monitor):
         self.nstored = fv(self.nstored)
         if self.last_end is not None:
             self.last_end = floc(self.last_end)
+        if self.det_at is not None:
+            self.det_at = floc(self.det_at)
         self.vals = {k: fv(v) for k, v in self.vals.items()}
         if self.verdict is not None and self.verdict[0] == "complete":
             self.verdict = ("complete", floc(self.verdict[1]))
@@ -114,7 +122,7 @@ class SpecMon(Monitor):
 
     def symbols(self):
         out = set()
-        for loc in list(self.marks.values()) + ([self.verdict[1]] if self.verdict and self.verdict[0] == "complete" else []) + ([self.last_end] if self.last_end else []):
+        for loc in list(self.marks.values()) + ([self.verdict[1]] if self.verdict and self.verdict[0] == "complete" else []) + ([self.last_end] if self.last_end else []) + ([self.det_at] if self.det_at else []):
             for s, c in loc[1]:
                 out.add(s)
         for e in self.exp.values():
@@ -169,6 +177,7 @@ class SpecMon(Monitor):
         return m.concretize(st, ("env", key, True))[1] != 0
 
     def bad(self, m, st, cls, detail):
+        st.flags["$dflt_alive"] = (self.dflt is None) or (self.dflt.q[0] != "ERR")
         m.violate(st, "spec:%s:%s" % (cls, self.phase), detail)
 
     # ---- positions ----------------------------------------------------------------------------
@@ -279,6 +288,16 @@ class SpecMon(Monitor):
     def consume(self, m, st, cid, i):
         """One byte passes under the cursor."""
         self.nconsumed += 1
+        self.detect(m, st, cid, self.pos(st, i + 1))
+        if self.dflt is not None and self.dflt.q[0] not in ("DONE", "ERR"):
+            d = self.dflt
+            if d.q[0] in ("VE", "WE"):
+                d.resolve_lookahead_mask(st.cells[cid])
+            if d.q[0] not in ("DONE", "ERR"):
+                lab = d.classify(m, st, cid)
+                d.pend = None
+                d.step(m, st, cid, lab, self.pos(st, i), self.pos(st, i + 1))
+                d.pend = None
         if self.q[0] in ("DONE", "ERR"):
             # bytes consumed after the reference has decided: only legal on the way to reporting
             # that same decision; recorded and checked at return
@@ -302,6 +321,82 @@ class SpecMon(Monitor):
                 self.flags["prev_cr"] = True
             else:
                 self.flags.pop("prev_cr", None)
+
+    def resolve_lookahead_mask(self, mask):
+        """Default reference only (no fold option there): nothing to resolve."""
+        return
+
+    def detect(self, m, st, cid, after):
+        """C03 detector.  request/response: skip leading empty lines, then the start line up to its
+        LF, then fire at the first line that is exactly LF or CR LF (leading SP/HTAB disregarded
+        only with allow_space_before_first_header_name while no header is stored).  chunk: fire at
+        the first CR LF."""
+        d = self.det
+        if d[0] in ("fired", "lost"):
+            return
+        mask = st.cells[cid]
+        is_lf = not (mask & ~LF & FULL)
+        no_lf = not (mask & LF)
+        is_cr = not (mask & ~CR & FULL)
+        no_cr = not (mask & CR)
+        if not ((is_lf or no_lf) and (is_cr or no_cr)):
+            self.det = ("lost",)
+            return
+        if d[0] == "c0":  # chunk: looking for CR LF
+            self.det = ("c1",) if is_cr else ("c0",)
+            return
+        if d[0] == "c1":
+            if is_lf:
+                self.det, self.det_at = ("fired",), after
+            else:
+                self.det = ("c1",) if is_cr else ("c0",)
+            return
+        if d[0] == "start":  # leading empty lines
+            if is_lf or is_cr:
+                return
+            self.det = ("sl",)
+            return
+        if d[0] == "sl":  # inside the start line
+            if is_lf:
+                self.det = ("line0",)
+            return
+        if d[0] == "line0":  # at a line start
+            if is_lf:
+                self.det, self.det_at = ("fired",), after
+            elif is_cr:
+                self.det = ("cr0",)
+            else:
+                is_ws = not (mask & ~WS & FULL)
+                no_ws = not (mask & WS)
+                if not (is_ws or no_ws):
+                    self.det = ("lost",)
+                elif is_ws and self.opt_peek(st, "fold") is not False:
+                    # with obsolete line folding a line starting with SP/HTAB may continue the
+                    # previous header: deciding that needs the grammar, not this detector
+                    self.det = ("lost",)
+                elif is_ws and self.opt_peek(st, "sb") is True and self.nstored[0] == "int" and self.nstored[1] == 0:
+                    pass  # disregarded leading whitespace
+                elif is_ws and self.opt_peek(st, "sb") is None:
+                    self.det = ("lost",)
+                else:
+                    self.det = ("in",)
+            return
+        if d[0] == "cr0":
+            if is_lf:
+                self.det, self.det_at = ("fired",), after
+            else:
+                self.det = ("cr0",) if is_cr else ("in",)
+            return
+        if d[0] == "in":
+            if is_lf:
+                self.det = ("line0",)
+            return
+
+    def opt_peek(self, st, name):
+        o = self.opts.get(name, ("const", False))
+        if o[0] == "const":
+            return o[1]
+        return st.env.get(o[1])
 
     # the transition function ----------------------------------------------------------------------
     def step(self, m, st, cid, lab, here, after):
@@ -751,7 +846,11 @@ class SpecMon(Monitor):
         if f is None:
             self.bad(m, st, "field", "store to the whole Request/Response value")
         if f == "headers":
-            self.flags["headers_assigned"] = v
+            self.flags["headers_assigned"] = True
+            return
+        if self.q[0] in ("DONE", "ERR") and self.exp.get(f) is None:
+            # the reference has already decided: the verdict comparison at return reports it
+            self.got[f] = True
             return
         if v[0] == "enum" and v[1] == 1:
             inner = v[2][0]
@@ -782,7 +881,8 @@ class SpecMon(Monitor):
             return  # zero-length values may live anywhere
         if v[1][0] != "B":
             m.violate(st, "zero-copy:not-in-buffer", "%s is a non-empty slice that does not point into the caller's buffer (%s)" % (
-                f, "static data" if v[1][0] in ("A", "K", "S") else v[1][0]))
+                f, "static data" if v[1][0] in ("A", "K", "S") else v[1][0]), fatal=False)
+            return
         ln = v[2]
         if v[3] is not None and v[3][0] == "trim" and v[3][1] in st.rsyms:
             ln = st.rsyms[v[3][1]][2]  # a trimmed slice ends no later than the region it was trimmed from
@@ -790,7 +890,7 @@ class SpecMon(Monitor):
         end = ("B",) + self.loc_add(v[1], t, c)
         r = st.rel_pos(end[1], end[2])
         if r is None or r[2] != 1 or r[1] is None or r[1] > 0:
-            m.violate(st, "zero-copy:beyond-consumed", "%s may extend beyond the bytes consumed so far" % f)
+            m.violate(st, "zero-copy:beyond-consumed", "%s may extend beyond the bytes consumed so far" % f, fatal=False)
         if self.last_end is not None:
             d = sym_norm(list(v[1][1]) + [(s_, -c_) for s_, c_ in self.last_end[1]], v[1][2] - self.last_end[2], 0, True)
             ok = d[0] == "int" and d[1] >= 0
@@ -798,7 +898,7 @@ class SpecMon(Monitor):
                 r2 = st.rel_pos(d[1], d[2])
                 ok = r2 is not None and r2[0] is not None and r2[0] >= 0
             if not ok:
-                m.violate(st, "zero-copy:order", "%s starts before the end of the previously reported slice" % f)
+                m.violate(st, "zero-copy:order", "%s starts before the end of the previously reported slice" % f, fatal=False)
         self.last_end = end
 
     def check_hygiene(self, m, st, f, v, fold=False):
@@ -813,30 +913,31 @@ class SpecMon(Monitor):
         empty_ok = f in ("reason", "header value")
         if v[2][0] == "int" and v[2][1] == 0:
             if not empty_ok:
-                m.violate(st, "hygiene:%s" % f.replace(" ", "-"), "%s may be empty" % f)
+                m.violate(st, "hygiene:%s" % f.replace(" ", "-"), "%s may be empty" % f, fatal=False)
             return
         inner = summ[2] if summ is not None and summ[0] == "trim" else summ
         if inner is None or inner[0] not in ("reg", "const", "empty"):
-            m.violate(st, "hygiene:%s" % f.replace(" ", "-"), "%s: content of the region is not known to the analysis" % f)
+            m.violate(st, "hygiene:%s" % f.replace(" ", "-"), "%s: content of the region is not known to the analysis" % f, fatal=False)
+            return
         if inner[0] == "empty":
             if not empty_ok:
-                m.violate(st, "hygiene:%s" % f.replace(" ", "-"), "%s may be empty" % f)
+                m.violate(st, "hygiene:%s" % f.replace(" ", "-"), "%s may be empty" % f, fatal=False)
             return
         content = inner[1]
         if content & ~cls & FULL:
-            m.violate(st, "hygiene:%s" % f.replace(" ", "-"), "%s may contain %s" % (f, mask_str(content & ~cls & FULL)))
+            m.violate(st, "hygiene:%s" % f.replace(" ", "-"), "%s may contain %s" % (f, mask_str(content & ~cls & FULL)), fatal=False)
         if not empty_ok and inner[0] == "reg" and inner[3] is not True:
-            m.violate(st, "hygiene:%s" % f.replace(" ", "-"), "%s may be empty" % f)
+            m.violate(st, "hygiene:%s" % f.replace(" ", "-"), "%s may be empty" % f, fatal=False)
         if f == "header value":
             first = inner[2] if inner[0] == "reg" else FULL
             if first & WS:
-                m.violate(st, "hygiene:header-value", "header value may start with SP/HTAB")
+                m.violate(st, "hygiene:header-value", "header value may start with SP/HTAB", fatal=False)
             if summ[0] != "trim":
-                m.violate(st, "hygiene:header-value", "header value is not trimmed at its end")
+                m.violate(st, "hygiene:header-value", "header value is not trimmed at its end", fatal=False)
             else:
                 r = st.rsyms.get(summ[1])
                 if r is None or (r[1] & WS):
-                    m.violate(st, "hygiene:header-value", "header value may end with SP/HTAB")
+                    m.violate(st, "hygiene:header-value", "header value may end with SP/HTAB", fatal=False)
 
     def check_value(self, m, st, f, e, v):
         if e[0] == "val":
@@ -862,6 +963,9 @@ class SpecMon(Monitor):
             d = sym_add(a, b, -1, 0, True)
             if d[0] == "int":
                 return d[1] == 0
+            lo, hi = m.sym_bounds(st, d)
+            if lo is not None and lo == hi:
+                return lo == 0
             # small joint domain: enumerate
             cellterms = [s for s, c in d[1] if isinstance(s, tuple) and s[0] == "c"]
             if len(cellterms) == len(d[1]):
@@ -907,6 +1011,9 @@ class SpecMon(Monitor):
         return "+".join(("%s" % s if c == 1 else "%d*%s" % (c, s)) for s, c in loc[1]) + ("%+d" % loc[2] if loc[2] else "")
 
     def yield_slot(self, m, st, item):
+        if self.q[0] in ("DONE", "ERR"):
+            self.slotq = item[1]
+            return
         self.resolve_lookahead(m, st)
         if self.pend is None:
             self.bad(m, st, "order", "a header slot is taken although no header line is complete (reference state %s)" % self.q[0])
@@ -916,12 +1023,18 @@ class SpecMon(Monitor):
         self.slotq = item[1]
 
     def slots_exhausted(self, m, st, it):
+        if self.q[0] in ("DONE", "ERR"):
+            return
         self.resolve_lookahead(m, st)
         if self.pend is None:
             self.bad(m, st, "order", "header capacity tested although no header line is complete (reference state %s)" % self.q[0])
         self.flags["exhausted"] = True
 
     def slot_store(self, m, st, loc, v):
+        if self.q[0] in ("DONE", "ERR") and self.pend is None:
+            self.slotq = None
+            self.nstored = sym_add(self.nstored, mk_int(1, 64))
+            return
         if self.pend is None:
             self.bad(m, st, "slot", "store to a header slot without a completed header line")
         if self.slotq is None or loc[:3] != self.slotq[:3]:
@@ -1016,8 +1129,9 @@ class SpecMon(Monitor):
             want = "partial"
         else:
             want = sv[0]
+        self.check_framing(m, st, kind, payload)
         if kind == "partial" and not (st.eof and not st.tape):
-            m.violate(st, "partial-with-unread-input", "Partial returned while %s" % ("%d byte(s) already seen are unread" % len(st.tape) if st.tape else "the end of the buffer has not been observed"))
+            m.violate(st, "partial-with-unread-input", "Partial returned while %s" % ("%d byte(s) already seen are unread" % len(st.tape) if st.tape else "the end of the buffer has not been observed"), fatal=False)
         self.check_headers_field(m, st, kind, payload)
         if kind == "partial":
             if want == "err":
@@ -1068,6 +1182,31 @@ class SpecMon(Monitor):
     def check_partial_fields(self, m, st):
         pass
 
+    def check_framing(self, m, st, kind, payload):
+        """C03 by the independent detector: Complete(n) exactly at the first empty line (chunk: first
+        CR LF); no Partial when it is already in the buffer."""
+        det, at = self.det, self.det_at
+        # run the detector over the look-ahead the implementation has seen but not consumed
+        k = 0
+        sim = self.clone()
+        while sim.det[0] not in ("fired", "lost") and k < len(st.tape):
+            sim.detect(m, st, st.tape[k], ("B", ((st.cur_tok(), 1),), k + 1))
+            k += 1
+        det, at = sim.det, sim.det_at
+        if det[0] == "lost":
+            return
+        if kind == "complete":
+            if det[0] != "fired":
+                m.violate(st, "framing:complete-without-empty-line", "Complete returned but no %s has been seen" % ("CR LF" if self.kind == "chunk" else "empty line after the start line"))
+            n = payload["n"]
+            t, c = sym_of(n)
+            got = ("B",) + self.loc_add(("B", (("B", 1),), 0), t, c)
+            if not self.same_pos(st, got, at):
+                m.violate(st, "framing:offset", "Complete(n) with n = %s but the first %s ends at %s" % (m.show_sym(n), "CR LF" if self.kind == "chunk" else "empty line", self.show_loc(st, at)))
+        elif kind == "partial":
+            if det[0] == "fired":
+                m.violate(st, "framing:partial-with-empty-line", "Partial returned although the %s is already in the buffer" % ("CR LF" if self.kind == "chunk" else "empty line ending the head"))
+
     def check_headers_field(self, m, st, kind, payload):
         """C17: what `headers` refers to when the call returns."""
         pb = m.p.ptr_bytes * 8
@@ -1088,6 +1227,8 @@ class SpecMon(Monitor):
         uninit_root = "uninit" in self.root
         arr = "ARG" if uninit_root else "SELF"
         if kind == "complete":
+            if not self.flags.get("headers_assigned"):
+                m.violate(st, "history:headers-not-assigned", "Complete but `headers` was not assigned in this call: it still shows what an earlier call left there", fatal=False)
             if h[0] != "fat" or h[1][0] != "D" or h[1][1] != arr or not self.same_value(m, st, h[1][2], mk_int(0, pb)):
                 m.violate(st, "headers:complete-slice", "on Complete `headers` does not refer to the start of the array handed to this call")
             elif not self.same_value(m, st, h[2], self.nstored):
@@ -1166,4 +1307,7 @@ def spec_for_root(root, kind):
     opts = {}
     for k, field in names.items():
         opts[k] = ("env", "cfg:" + field) if configured else ("const", False)
-    return SpecMon(kind, root, opts)
+    mon = SpecMon(kind, root, opts)
+    if configured and names:
+        mon.dflt = SpecMon(kind, root, {k: ("const", False) for k in names})
+    return mon
